@@ -10,6 +10,7 @@ of the pointer model (parse the emitted C++ text, count dereferences against the
 the thorough tier, g++ -fsyntax-only against classes generated from the same declarations."""
 import ast
 import itertools
+import os
 import json
 import logging
 import random
@@ -379,6 +380,7 @@ class Typer:
 def oracle_e2e(backend: str, mds, prog, out, expect_valid: bool) -> Optional[str]:
     """The property text applied to what the implementation emitted for a program the generator built to be
     well-formed against the declarations.  Returns a description of the failure or None."""
+    oracle_e2e.undeclared = ()  # type: ignore[attr-defined]
     if not expect_valid:
         return None
     if out[0] != "ok":
@@ -434,7 +436,11 @@ def oracle_e2e(backend: str, mds, prog, out, expect_valid: bool) -> Optional[str
                 return f"column declared {decl!r}, declaration says {want!r}"
             if (cast.group(1) if cast else rt[0]) != (tree or rt[0]):
                 return f"stored value not converted to the declared tree type {tree!r}: {stmt!r}"
+            if cast and rt[1] > 0:
+                return (f"pointer value of type {rt[0]}{'*' * rt[1]} stored with static_cast<{cast.group(1)}> (not a pointer type) into a column declared {decl}: "
+                        f"ill-formed C++ ({stmt!r})")
     undeclared = [f"{ty}::{m}" for ty, m, dec in used if not dec]
+    oracle_e2e.undeclared = sorted({(ty, m) for ty, m, dec in used if not dec})  # type: ignore[attr-defined]
     warned = []
     for w in warns:
         mm = re.match(r"Warning: assuming that the method '(.*)\(\.\.\.\)' has return type 'double'", w)
@@ -535,7 +541,8 @@ def gen_signature(rng: random.Random, ty: str, mn: str, max_depth: int = 2):
     if form == "object":
         return mk_method(ty, mn, rt=type_text(rng, rng.choice(OBJ), rng.randint(0, max_depth), rng.random() < 0.2), deref=deref)
     el_name = rng.choice(OBJ + VAL[:3])
-    el = type_text(rng, el_name, rng.randint(0, max_depth) if el_name in OBJ else rng.choice([0, 0, 1]), rng.random() < 0.15)
+    # std::vector<const double> is not C++: const only on object elements
+    el = type_text(rng, el_name, rng.randint(0, max_depth) if el_name in OBJ else rng.choice([0, 0, 1]), el_name in OBJ and rng.random() < 0.15)
     co = rng.choice([None, None, "Vec_" + el_name, "Vec_" + el_name + "*", "std::vector<%s> *" % el.replace("const ", "")])
     return mk_method(ty, mn, el=el, co=co, deref=deref)
 
@@ -653,7 +660,7 @@ def mutate_program(rng: random.Random, prog):
     return [levels, last, vec]
 
 
-GRID_FORMS = ["value", "object", "coll_val_of_val", "coll_val_of_ptr", "coll_ptr_of_val", "coll_ptr_of_ptr"]
+GRID_FORMS = ["value", "value_tree", "object", "coll_val_of_val", "coll_val_of_ptr", "coll_ptr_of_val", "coll_ptr_of_ptr"]
 
 
 def grid_case(backend: str, form: str, depth: int, deref: int, use_index: bool):
@@ -664,6 +671,9 @@ def grid_case(backend: str, form: str, depth: int, deref: int, use_index: bool):
     follow = [["call", "v", []]]
     if form == "value":
         mds.append(mk_method(rty, "m0", rt="double" + st, deref=deref))
+        return mds, [[], [["call", "m0", []]], []]
+    if form == "value_tree":
+        mds.append(mk_method(rty, "m0", rt="float" + st, tree="double", deref=deref))
         return mds, [[], [["call", "m0", []]], []]
     if form == "object":
         mds.append(mk_method(rty, "m0", rt="A" + st, deref=deref))
@@ -681,7 +691,7 @@ def grid_case(backend: str, form: str, depth: int, deref: int, use_index: bool):
 # ------------------------------------------------------------------------------------------------
 # g++ support (thorough tier): classes generated from the very same declarations
 # ------------------------------------------------------------------------------------------------
-def cxx_unit(backend: str, mds, loops: List[str], stmt: str, decl: str) -> Optional[str]:
+def cxx_unit(backend: str, mds, loops: List[str], stmt: str, decl: str, undeclared=()) -> Optional[str]:
     """A translation unit declaring one class per declared type with exactly the declared members, and
     the emitted loops + store.  Types whose methods are declared with deref_count k>0 get the members
     behind k overloaded dereferences.  Returns None for declarations the stand-in cannot express."""
@@ -714,13 +724,20 @@ def cxx_unit(backend: str, mds, loops: List[str], stmt: str, decl: str) -> Optio
             ensure(rt[0])
             rtxt = (rt[0] if rt[0] in VAL else cname(rt[0])) + "*" * rt[1]
         types[ty].setdefault(k, []).append(f"  {rtxt} {m}(double = 0, double = 0);")
-    out = ["#include <vector>", "namespace xAOD { namespace Jet { enum Color { Red, Blue }; } }",
-           "namespace ns { enum E { k0, k1, k2 }; }", "namespace a { namespace b { namespace c { enum Kind { X }; } } }"]
+    for ty, m in undeclared:  # "a method with no declaration is assumed to return double"
+        if ty in VAL or ty.startswith("std::vector<") or ty in colls:
+            return None
+        ensure(ty)
+        types[ty].setdefault(0, []).append(f"  double {m}(double = 0, double = 0);")
+    out = ["#include <vector>"]
+    for (ns, n), vals in d.enums.items():
+        parts = ns.split(".")
+        out.append(" ".join(f"namespace {q} {{" for q in parts) + f" enum {n} {{ {', '.join(vals)} }}; " + "}" * len(parts))
 
     def fix(s: str) -> str:
         for n in sorted(list(types) + list(colls), key=len, reverse=True):
             if cname(n) != n:
-                s = s.replace(n, cname(n))
+                s = re.sub(r"(?<![\w:])" + re.escape(n) + r"(?!::|\w)", cname(n), s)
         return s
 
     for n in types:
@@ -839,7 +856,7 @@ def check(tier: str, seed: int, t0: float, build: core.BuildStatus) -> int:
                 oc.traces_validated_against_impl += 1
 
     # ---- 3. registry lookup + determine_type_mf, enum resolution -----------------------------
-    n_lookup = 400 if not thorough else 6000
+    n_lookup = 1000 if not thorough else 6000
     for _ in range(n_lookup):
         mds = gen_universe(rng, "R")
         if rng.random() < 0.1:
@@ -935,10 +952,12 @@ def check(tier: str, seed: int, t0: float, build: core.BuildStatus) -> int:
         bump("e2e_ok" if out[0] == "ok" else "e2e_error_" + out[1])
         bad = oracle_e2e(backend, mds, prog, out, expect_valid)
         if bad is None and use_gxx and out[0] == "ok" and expect_valid:
-            unit = cxx_unit(backend, mds, out[1][0], out[1][2], out[1][1])
+            unit = cxx_unit(backend, mds, out[1][0], out[1][2], out[1][1], getattr(oracle_e2e, "undeclared", ()))
             if unit is not None:
                 gxx_runs += 1
                 ok, msg = gxx_ok(unit, work)
+                if not ok and os.environ.get("C10_DUMP"):
+                    Path(os.environ["C10_DUMP"], f"fail{gxx_runs}.cpp").write_text(unit + "\n/*\n" + msg + "\n" + src + "\n*/\n")
                 if not ok:
                     bad = "g++ rejects the emitted code against classes generated from the declarations: " + msg.strip().splitlines()[0][:200]
         if bad:
@@ -951,8 +970,8 @@ def check(tier: str, seed: int, t0: float, build: core.BuildStatus) -> int:
                 key="c10:" + classify_e2e(bad), what=f"{backend}: {src2}: {bad}",
                 replay={"kind": "e2e", "backend": backend, "metadata": s_md, "program": s_prog, "query": src2,
                         "implementation": o2, "oracle": bad, "expect_valid": True}))
-            return
-        if expect_valid and out[0] == "ok":
+            # no return: the model must still predict this (wrong) outcome exactly
+        if expect_valid and out[0] == "ok" and not bad:
             distinct.add("q:" + json.dumps([mds, prog]))
         if model is not None:
             _, rty, rdepth = BACKENDS[backend]
@@ -970,7 +989,7 @@ def check(tier: str, seed: int, t0: float, build: core.BuildStatus) -> int:
             mds, prog = grid_case(backend, form, depth, deref, use_index)
             # a collection handed over behind more than one pointer is outside the declared space (by value or pointer)
             run_case(backend, mds, prog, True, "e2e_grid", use_gxx=have_gxx)
-    n_e2e = 250 if not thorough else 4000
+    n_e2e = 700 if not thorough else 4000
     for i in range(n_e2e):
         backend = rng.choice(list(BACKENDS))
         mds = gen_universe(rng, BACKENDS[backend][1])
@@ -987,7 +1006,7 @@ def check(tier: str, seed: int, t0: float, build: core.BuildStatus) -> int:
                f"base_type_member_access: exhaustive {len(exprs)} expressions x depth x extra_deref (negative included); "
                f"{n_lookup} random metadata lists (4-12 declarations over 4 receiver types x 5 methods, redeclarations, 10% malformed dictionaries) x one lookup; "
                f"{n_enum} enum resolutions (shadowing namespaces, repeated definitions, unknown values, over/under-long paths); "
-               f"end-to-end: exhaustive grid {len(grid_backends)} backends x 6 return forms x depth 0..3 x deref_count 0..3 (collections iterated and indexed) + {n_e2e} random universes and call chains over them (SelectMany levels, nested Select, indexing, enum and literal arguments, 20% malformed); "
+               f"end-to-end: exhaustive grid {len(grid_backends)} backends x 7 return forms x depth 0..3 x deref_count 0..3 (collections iterated and indexed) + {n_e2e} random universes and call chains over them (SelectMany levels, nested Select, indexing, enum and literal arguments, 20% malformed); "
                "non-trivial = a string with a star or const / every grid point / every accepted well-formed query; distinct by value")
     oc.samples = [parse_inputs[20][0], parse_inputs[-1][0]] + [query_src("atlas", grid_case("atlas", "coll_ptr_of_ptr", 2, 1, True)[1])]
     oc.extra = {"input_classes": hist, "gxx_units_compiled": gxx_runs, "model_available": model is not None}
@@ -1000,6 +1019,8 @@ def check(tier: str, seed: int, t0: float, build: core.BuildStatus) -> int:
 
 
 def classify_e2e(bad: str) -> str:
+    if "pointer value of type" in bad:
+        return "pointer-column-cast"
     if "loop over a collection still behind" in bad:
         return "collection-behind-pointers"
     if "refused" in bad:
@@ -1040,7 +1061,6 @@ def replay(path: str, build: core.BuildStatus) -> int:
         print("implementation:", ri)
         if model:
             print("model:", model.call("c10.lookup", [data["metadata"], data["type"], data["method"]]))
-        bad = None if ri == data["implementation"] else None
         bad = "same outcome as recorded" if ri == data["implementation"] else None
     elif kind == "enum":
         ri = impl_enum(data["metadata"], data["id"], data["attrs"])
